@@ -183,6 +183,18 @@ CHECKS = {
        "Downstream order-normalisation rules are armed only while some source is unordered.",
   note="trusted: classification table of iterator constructors in sa/props/c11.py; qsort sorts; dir_win32.c is not compiled here",
   technique="static analysis: escape analysis of the host's directory entries, must-pass-through (sort dominates success), exhaustive abstract evaluation of the comparator, constructor-chain typestate on LLVM IR"),
+ "C16": dict(
+  text="The round trip describe -> pack-file -> same tree is value-level and NOT decided. Decided is the lexical agreement of "
+       "the two independently written ends, from character constants extracted out of LLVM IR: parser side = separator "
+       "string handed to the tokenizer, byte constants every function that receives the raw line compares line bytes with "
+       "(moving pointer = anywhere; fixed first byte = line start), look-ahead (escapable) set, escape introducer; printer "
+       "side = quoting triggers, escaped set, escape and quote characters. Obligations O1..O9: separators and all parser "
+       "specials trigger quoting; in-quote specials are escaped and nothing else is; escape/quote characters match; no "
+       "printed line starts with a line-start special; every raw emission of a non-constant string is dominated by a "
+       "negative quoting decision on that very string; escaping only inside quotes; keywords and device arity match the "
+       "parser's table.",
+  note="trusted: istream_get_line strips the line terminator; names with newline are excluded by the property",
+  technique="static analysis: character-class extraction and set inclusion (agreement of sibling lexers), dominance of raw emissions by the quoting predicate, on LLVM IR"),
 }
 
 NA_DEFAULT = "rules designed in DESIGN.md, not implemented yet (work in progress)"
